@@ -68,27 +68,67 @@ func (c *cloner) node(n ast.Node) ast.Node {
 	if n == nil || reflect.ValueOf(n).IsNil() {
 		return n
 	}
+	// a parameter bound to &x: p.f is x.f and *p is x
+	if c.subst != nil {
+		switch t := n.(type) {
+		case *ast.SelectorExpr:
+			if inner := c.addrSubst(t.X); inner != nil {
+				out := &ast.SelectorExpr{X: c.substCopy(inner, t.X.Pos()+token.Pos(c.off)), Sel: c.node(t.Sel).(*ast.Ident)}
+				c.copyInfo(t, out)
+				return out
+			}
+		case *ast.StarExpr:
+			if inner := c.addrSubst(t.X); inner != nil {
+				return c.substCopy(inner, t.Pos()+token.Pos(c.off))
+			}
+		}
+	}
 	// parameter substitution
 	if id, ok := n.(*ast.Ident); ok && c.subst != nil {
 		if o := c.info.Uses[id]; o != nil {
 			if e, ok := c.subst[o]; ok {
-				at := id.Pos() + token.Pos(c.off)
-				sub := &cloner{p: c.p, info: c.info, objs: map[types.Object]types.Object{}}
-				out := sub.node(e).(ast.Expr)
-				collapsePos(out, at)
-				if _, simple := out.(*ast.Ident); !simple {
-					if _, sel := out.(*ast.SelectorExpr); !sel {
-						out = &ast.ParenExpr{Lparen: at, X: out, Rparen: at}
-						if tv, ok := c.info.Types[e]; ok {
-							c.info.Types[out] = tv
-						}
-					}
-				}
-				return out
+				return c.substCopy(e, id.Pos()+token.Pos(c.off))
 			}
 		}
 	}
 	return c.value(reflect.ValueOf(n)).Interface().(ast.Node)
+}
+
+// substCopy copies a substituted operand to position at.
+func (c *cloner) substCopy(e ast.Expr, at token.Pos) ast.Expr {
+	sub := &cloner{p: c.p, info: c.info, objs: map[types.Object]types.Object{}}
+	out := sub.node(e).(ast.Expr)
+	collapsePos(out, at)
+	switch out.(type) {
+	case *ast.Ident, *ast.SelectorExpr, *ast.ParenExpr, *ast.BasicLit:
+	default:
+		p := &ast.ParenExpr{Lparen: at, X: out, Rparen: at}
+		if tv, ok := c.info.Types[e]; ok {
+			c.info.Types[p] = tv
+		}
+		out = p
+	}
+	return out
+}
+
+// addrSubst: when e is a parameter substituted by &x, returns x.
+func (c *cloner) addrSubst(e ast.Expr) ast.Expr {
+	id, ok := ast.Unparen(e).(*ast.Ident)
+	if !ok {
+		return nil
+	}
+	o := c.info.Uses[id]
+	if o == nil {
+		return nil
+	}
+	s, ok := c.subst[o]
+	if !ok {
+		return nil
+	}
+	if u, ok := ast.Unparen(s).(*ast.UnaryExpr); ok && u.Op == token.AND {
+		return u.X
+	}
+	return nil
 }
 
 func (c *cloner) value(v reflect.Value) reflect.Value {
